@@ -116,6 +116,10 @@ def main():
     modules = meta.get("modules", [f"KvarnModel.Props.{pid}"])
     os.makedirs(f"{VERIF}/evidence", exist_ok=True)
     os.makedirs(f"{VERIF}/replays/{pid}", exist_ok=True)
+    if not replay_in:
+        for f in os.listdir(f"{VERIF}/replays/{pid}"):
+            if f.startswith(tier + "-"):
+                os.remove(f"{VERIF}/replays/{pid}/{f}")
     outdir = f"{HARNESS}/target/out/{pid}-{tier}"
     os.makedirs(outdir, exist_ok=True)
     broken = []  # (kind, name, detail)
